@@ -252,4 +252,39 @@ Section IOSupProofs.
     rewrite Hb. cbn [obind]. rewrite Hl. cbn [obind fst]. apply IH; auto.
     intros g u Hg. apply Hsel. right. exact Hg.
   Qed.
+
+  (* ---------------------------------------------------------------- *)
+  (* 7. path reuse with the truncating open *)
+  Local Notation save_all := (IOSup.save_all enc).
+  Local Notation reuse_then_load := (IOSup.reuse_then_load tdim tsize valid_nested valid_embed enc dec).
+
+  Lemma save_all_trunc_last : forall (l : list (tframe tensor * stats)) f t cs,
+    Forall (fun p => twf (fst p)) l -> twf t ->
+    exists b, save t cs = Some b /\ save_all OTrunc f (l ++ [(t, cs)]) = Some (Some b).
+  Proof.
+    induction l as [|[t0 cs0] l IH]; intros f t cs Hl Ht; cbn [app IOSup.save_all].
+    - destruct (save_load_roundtrip tensor tdim tsize valid_nested valid_embed stats byte enc dec H_dec_enc t cs Ht)
+        as (b & Hb & _).
+      exists b. split; [exact Hb|]. unfold save_to. rewrite Hb. reflexivity.
+    - inversion Hl as [|? ? H0 Hl']; subst. cbn [fst] in H0.
+      destruct (save_load_roundtrip tensor tdim tsize valid_nested valid_embed stats byte enc dec H_dec_enc t0 cs0 H0)
+        as (b0 & Hb0 & _).
+      unfold save_to at 1. rewrite Hb0. cbn [option_map obind write_file]. apply IH; assumption.
+  Qed.
+
+  Lemma path_reuse_returns_last : forall (l : list (tframe tensor * stats)) f t cs,
+    Forall (fun p => twf (fst p)) l -> twf t ->
+    reuse_then_load OTrunc f (l ++ [(t, cs)]) = Some (t, cs).
+  Proof.
+    intros l f t cs Hl Ht. unfold IOSup.reuse_then_load.
+    destruct (save_all_trunc_last l f t cs Hl Ht) as (b & Hb & ->). cbn [obind].
+    destruct (save_load_roundtrip tensor tdim tsize valid_nested valid_embed stats byte enc dec H_dec_enc t cs Ht)
+      as (b' & Hb' & Hl'). rewrite Hb in Hb'. injection Hb' as <-. exact Hl'.
+  Qed.
+
+  (* without truncation the file is the new bytes followed by the old tail *)
+  Lemma notrunc_keeps_tail : forall old t cs b,
+    save t cs = Some b ->
+    IOSup.save_to enc ONoTrunc (Some old) t cs = Some (Some (b ++ skipn (List.length b) old)).
+  Proof. intros old t cs b Hb. unfold save_to. rewrite Hb. reflexivity. Qed.
 End IOSupProofs.
